@@ -962,10 +962,9 @@ well-formed histories ids may repeat freely: `demoH` uses 11 twice.)
 **E3 — `Backup` into the database's own merge directory between a successful `Merge` and its
 adoption** (`HOpOK` violated: `dest = dir ++ "-merge"`; a real caller CAN do this).  The copied data
 files overwrite the rewritten files of the same names while marker and hint file stay: the adopting
-`Open` installs the ORIGINAL files `0 … count-1` as "merged" files, deletes the originals from
-`count` up to the marker and loads a hint index whose positions refer to the rewritten files.  The
-reads then return other keys' values without any error (`getValueByPosition` does not compare the
-key).  The same happens in Go (`utils.CopyDir` overwrites `000000000.data …` in `<dir>-merge`). -/
+`Open` installs the ORIGINAL files `0 … count-1` as "merged" files and deletes the originals from
+`count` up to the marker: acknowledged data is lost without any error.  The same happens in Go
+(`utils.CopyDir` overwrites `000000000.data …` in `<dir>-merge`). -/
 
 private def cfgS : Cfg := { fileSize := 60, sync := 0, bps := 0, idx := 0, io := 0, shards := 1 }
 private def e3 : List HOp :=
@@ -974,9 +973,13 @@ private def e3 : List HOp :=
    .a (.get (kb "a")), .a (.get (kb "b")), .a (.get (kb "c")), .a (.get (kb "d"))]
 -- one record per file: data files 0…4 + the empty active file 5; the merge output is four files
 #guard (nFiles (hrun "d" (openDB St.init "d" cfgS).1 (e3.take 6)).1 "d-merge") == some [0, 1, 2, 3]
--- the live value of `a` is 3; after the adopting restart: a ↦ 2, b ↦ 1, d ↦ 4 — three wrong values, no error
+-- the live value of `d` is 5; after the adopting restart `d` is gone (not found): the adoption installed the copied
+-- originals 0…3 as "merged" files and deleted original file 4, the only copy of `d ↦ 5`
 #guard (hrun "d" (openDB St.init "d" cfgS).1 e3).2.map showRes
-  = ["ok", "ok", "ok", "ok", "ok", "ok", "ok", "val:[51]", "ok", "ok", "val:[50]", "val:[49]", "val:[52]", "val:[52]"]
+  = ["ok", "ok", "ok", "ok", "ok", "ok", "ok", "val:[51]", "ok", "ok", "val:[51]", "val:[50]", "val:[52]", "nf"]
+-- (since `Backup` makes its destination hold exactly the source's files - repair ca47810 - the merge directory now holds
+--  copies of the ORIGINAL files 0…5 under the marker of the finished merge)
+#guard (nFiles (hrun "d" (openDB St.init "d" cfgS).1 (e3.take 7)).1 "d-merge") == some [0, 1, 2, 3, 4, 5]
 -- file 4 (the only copy of `d ↦ 5`) has been deleted by the adoption
 #guard (nFiles (hrun "d" (openDB St.init "d" cfgS).1 (e3.take 9)).1 "d") == some [0, 1, 2, 3, 5]
 
